@@ -20,6 +20,10 @@ var (
 func PrepareGrammar(grammar *ast.Grammar) (bool, error) {
 	mapRules := make(map[string]*ast.Rule, len(grammar.Rules))
 	for _, rule := range grammar.Rules {
+		// The flags may be left over from an earlier analysis of this grammar
+		// value (it can have been optimized since): start from scratch.
+		rule.LeftRecursive = false
+		rule.Leader = false
 		mapRules[rule.Name.Val] = rule
 	}
 	ComputeNullables(mapRules)
